@@ -490,19 +490,47 @@ pub fn check_c13(sc: &Scenario, rr: &RunResult) -> Vec<Violation> {
             None => "never-sent".into(),
         }
     };
+    // The statement speaks of finished searches: a stream on which finish() was never called (still held, or
+    // dropped) may keep its ID. Tokens of such streams:
+    let rets_all = returns_by_step(&rr.hist);
+    let mut unfinished: std::collections::BTreeSet<String> = Default::default();
+    for (c, cs) in sc.clients.iter().enumerate() {
+        for (ix, st) in cs.steps.iter().enumerate() {
+            if let Step::Open { token, slot, .. } = st {
+                if !matches!(rets_all.get(&(c, ix)).map(|x| x.0), Some(Ret::Opened)) {
+                    continue;
+                }
+                let mut finished = false;
+                for (off, later) in cs.steps[ix + 1..].iter().enumerate() {
+                    match later {
+                        Step::Finish { slot: s2 } if s2 == slot => {
+                            finished = matches!(rets_all.get(&(c, ix + 1 + off)).map(|x| x.0), Some(Ret::Fin(_)));
+                            break;
+                        }
+                        Step::Open { slot: s2, .. } if s2 == slot => break,
+                        _ => {}
+                    }
+                }
+                if !finished {
+                    unfinished.insert(token.clone());
+                }
+            }
+        }
+    }
+    let owner_unfinished = |id: i32| -> bool { tok_of.get(&(id as i64)).map_or(false, |(t, _)| unfinished.contains(t)) };
     let driver_alive_at = |seq: u64| !rr.hist.iter().any(|e| e.seq < seq && matches!(e.kind, EvKind::DriverExit { .. }));
     for e in &rr.hist {
         if let EvKind::Snapshot { label, in_use, resultmap, searchmap, .. } = &e.kind {
             if !driver_alive_at(e.seq) {
                 continue;
             }
-            for id in in_use.iter().filter(|i| !phantoms.contains(i)) {
+            for id in in_use.iter().filter(|i| !phantoms.contains(i) && !owner_unfinished(**i)) {
                 v.push(Violation::new("C13", "C13.ids", format!("id-reserved/{}", class_of(*id)), format!("at {label} checkpoint (t={}ms) message ID {id} is still reserved although no operation is outstanding", e.t_ms)));
             }
             for id in resultmap {
                 v.push(Violation::new("C13", "C13.routing", format!("resultmap/{}", class_of(*id)), format!("at {label} checkpoint the single-result routing map still holds ID {id}")));
             }
-            for id in searchmap {
+            for id in searchmap.iter().filter(|i| !owner_unfinished(**i)) {
                 v.push(Violation::new("C13", "C13.routing", format!("searchmap/{}", class_of(*id)), format!("at {label} checkpoint the search routing map still holds ID {id}")));
             }
         }
@@ -730,6 +758,22 @@ pub fn check_c05(sc: &Scenario, rr: &RunResult) -> Vec<Violation> {
     let mut v = check_clean_run("C05", rr);
     v.extend(check_c05_blackbox(sc, rr));
     v.extend(check_c05_whitebox(sc, rr));
+    if v.is_empty() {
+        // two operations sharing an ID inside the client (even when the wire never shows both at once) lose or
+        // swap their routes: in this fault-free family every call must return its planned value
+        let dead = dead_clients(&rr.hist);
+        for m in walk_plain(sc, &rr.hist, &WalkOpts { strict_stream: false }) {
+            if m.missing && dead.contains(&m.client) {
+                continue;
+            }
+            v.push(Violation::new(
+                "C05",
+                "C05.route",
+                format!("{}/{}", m.what, if m.missing { "no-return" } else if m.foreign { "foreign-content" } else { "lost-or-wrong-value" }),
+                format!("client {} step {}: expected {} got {}", m.client, m.step, clip(&m.expected), clip(&m.actual)),
+            ));
+        }
+    }
     v
 }
 
@@ -748,22 +792,27 @@ struct Emis {
     by_label: BTreeMap<String, (u64, usize)>,
     /// (time, upto) of every network delivery, in order
     deliveries: Vec<(u64, usize)>,
+    /// [start, end) of a write stall: while the driver is blocked writing it does not read, so when exactly a
+    /// reply delivered in this window reaches its caller is not modelled
+    stall: Option<(u64, u64)>,
 }
 
 impl Emis {
     fn new(hist: &[Ev]) -> Emis {
         let mut by_label = BTreeMap::new();
         let mut deliveries = vec![];
+        let mut stall = None;
         for e in hist {
             match &e.kind {
                 EvKind::SrvEmit { label, range, .. } => {
                     by_label.insert(label.clone(), (e.t_ms, range.1));
                 }
                 EvKind::NetDeliver { upto } => deliveries.push((e.t_ms, *upto)),
+                EvKind::Fault { what, at } if what == "write_stall" => stall = Some((e.t_ms, e.t_ms + *at as u64)),
                 _ => {}
             }
         }
-        Emis { by_label, deliveries }
+        Emis { by_label, deliveries, stall }
     }
     /// virtual time at which the emission with this label became readable by the client
     fn delivered_at(&self, label: &str) -> Option<u64> {
@@ -816,6 +865,32 @@ pub fn walk_timed(sc: &Scenario, rr: &RunResult) -> Vec<TimedMismatch> {
     let rets = returns_by_step(hist);
     let invs = invokes_by_step(hist);
     let em = Emis::new(hist);
+    // when the request carrying a token reached the server (= when the driver had written it)
+    let written_at = |tok: &str| -> Option<u64> {
+        hist.iter().find_map(|e| match &e.kind {
+            EvKind::SrvRecv { token, .. } if token == tok => Some(e.t_ms),
+            _ => None,
+        })
+    };
+    // outcome of the submission of a search request: Ok(time it was acknowledged) / Err(expectation to report)
+    let submit = |tok: &str, t0: u64, timeout: Option<u64>| -> Result<u64, Exp> {
+        match (written_at(tok), timeout) {
+            (Some(tw), None) => Ok(tw.max(t0)),
+            (Some(tw), Some(t)) => {
+                let deadline = t0.saturating_add(t);
+                let tw = tw.max(t0);
+                if tw < deadline {
+                    Ok(tw)
+                } else if tw == deadline {
+                    Err(Exp::Ambiguous)
+                } else {
+                    Err(Exp::At(Ret::Err(crate::world::ErrC::Timeout), deadline))
+                }
+            }
+            (None, Some(t)) if t != u64::MAX => Err(Exp::At(Ret::Err(crate::world::ErrC::Timeout), t0.saturating_add(t))),
+            (None, _) => Err(Exp::Never),
+        }
+    };
     let mut out = vec![];
     struct St {
         tok: String,
@@ -862,11 +937,21 @@ pub fn walk_timed(sc: &Scenario, rr: &RunResult) -> Vec<TimedMismatch> {
                     }
                     let Some(t0) = t_inv else { continue };
                     match op {
-                        OpSpec::Abandon(_) | OpSpec::Unbind => report(lifecycle(step), String::new(), Exp::At(Ret::Unit, t0), false),
+                        OpSpec::Abandon(_) | OpSpec::Unbind => {
+                            // acknowledged when written; the time is not modelled (requests without a token)
+                            let at = actual.map(|a| a.1).unwrap_or(t0);
+                            report(lifecycle(step), String::new(), Exp::At(Ret::Unit, at), false)
+                        }
                         OpSpec::Search(_) => {
                             // search() = EntriesOnly loop with a per-receive timer
                             let Some(ReplyPlan::Items { items, done, .. }) = sc.plan.by_token.get(token) else { continue };
-                            let mut cur = t0;
+                            let mut cur = match submit(token, t0, mods.timeout_ms) {
+                                Ok(t) => t,
+                                Err(e) => {
+                                    report("search", "search()/submission".into(), e, false);
+                                    continue;
+                                }
+                            };
                             let mut entries = vec![];
                             let mut refs = vec![];
                             let mut exp = None;
@@ -897,7 +982,8 @@ pub fn walk_timed(sc: &Scenario, rr: &RunResult) -> Vec<TimedMismatch> {
                             if exp.is_none() {
                                 exp = Some(match done {
                                     None => match mods.timeout_ms {
-                                        Some(t) => Exp::At(Ret::Err(crate::world::ErrC::Timeout), cur + t),
+                                        Some(t) if t != u64::MAX => Exp::At(Ret::Err(crate::world::ErrC::Timeout), cur.saturating_add(t)),
+                                        Some(_) => Exp::Never,
                                         None => Exp::Never,
                                     },
                                     Some(d) => match recv_model(&em, &format!("{token}:done"), cur, mods.timeout_ms) {
@@ -923,7 +1009,8 @@ pub fn walk_timed(sc: &Scenario, rr: &RunResult) -> Vec<TimedMismatch> {
                                     Recv::Never => Exp::Never,
                                 },
                                 Some(ReplyPlan::Silent) => match mods.timeout_ms {
-                                    Some(t) => Exp::At(Ret::Err(crate::world::ErrC::Timeout), t0 + t),
+                                    Some(t) if t != u64::MAX => Exp::At(Ret::Err(crate::world::ErrC::Timeout), t0.saturating_add(t)),
+                                    Some(_) => Exp::Never,
                                     None => Exp::Never,
                                 },
                                 _ => Exp::Never,
@@ -946,6 +1033,14 @@ pub fn walk_timed(sc: &Scenario, rr: &RunResult) -> Vec<TimedMismatch> {
                             continue;
                         }
                     };
+                    let t_open = match submit(token, t0, mods.timeout_ms) {
+                        Ok(t) => t,
+                        Err(e) => {
+                            streams.insert(*slot, None);
+                            report("open", "submission".into(), e, false);
+                            continue;
+                        }
+                    };
                     streams.insert(
                         *slot,
                         Some(St {
@@ -961,7 +1056,7 @@ pub fn walk_timed(sc: &Scenario, rr: &RunResult) -> Vec<TimedMismatch> {
                             ambiguous: false,
                         }),
                     );
-                    report("open", String::new(), Exp::At(Ret::Opened, t0), false);
+                    report("open", String::new(), Exp::At(Ret::Opened, t_open), false);
                 }
                 Step::Next { slot, .. } => {
                     let Some(Some(st)) = streams.get_mut(slot) else { continue };
@@ -1026,10 +1121,11 @@ pub fn walk_timed(sc: &Scenario, rr: &RunResult) -> Vec<TimedMismatch> {
                             }
                         } else {
                             match st.timeout {
-                                Some(t) => {
+                                Some(t) if t != u64::MAX => {
                                     st.state = model::SState::Error;
-                                    break Exp::At(Ret::Err(crate::world::ErrC::Timeout), cur + t);
+                                    break Exp::At(Ret::Err(crate::world::ErrC::Timeout), cur.saturating_add(t));
                                 }
+                                Some(_) => break Exp::Never,
                                 None => break Exp::Never,
                             }
                         }
@@ -1077,19 +1173,26 @@ enum Recv {
 
 /// One receive that starts waiting at `cur` with an optional timer of `timeout` ms.
 fn recv_model(em: &Emis, label: &str, cur: u64, timeout: Option<u64>) -> Recv {
+    if let (Some(td), Some((s0, s1))) = (em.delivered_at(label), em.stall) {
+        if td >= s0 && td <= s1 {
+            return Recv::Ambiguous;
+        }
+    }
     match (em.delivered_at(label), timeout) {
         (Some(td), None) => Recv::At(td.max(cur)),
         (Some(td), Some(t)) => {
             let arrive = td.max(cur);
-            if arrive < cur + t {
+            let deadline = cur.saturating_add(t);
+            if arrive < deadline {
                 Recv::At(arrive)
-            } else if arrive == cur + t {
+            } else if arrive == deadline {
                 Recv::Ambiguous
             } else {
-                Recv::Timeout(cur + t)
+                Recv::Timeout(deadline)
             }
         }
-        (None, Some(t)) => Recv::Timeout(cur + t),
+        (None, Some(t)) if t == u64::MAX => Recv::Never,
+        (None, Some(t)) => Recv::Timeout(cur.saturating_add(t)),
         (None, None) => Recv::Never,
     }
 }
@@ -1399,6 +1502,10 @@ pub fn check_c04(sc: &Scenario, rr: &RunResult) -> Vec<Violation> {
         EvKind::SrvEmit { label, range, .. } if label == "hostile" => Some(range.0),
         _ => None,
     });
+    let hostile_end = rr.hist.iter().find_map(|e| match &e.kind {
+        EvKind::SrvEmit { label, range, .. } if label == "hostile" => Some(range.1),
+        _ => None,
+    });
     let mut mode = FaultMode::Exact { at: usize::MAX };
     let mut read_side = true;
     for f in &sc.faults {
@@ -1427,6 +1534,92 @@ pub fn check_c04(sc: &Scenario, rr: &RunResult) -> Vec<Violation> {
             "C04.d"
         };
         v.push(Violation::new("C04", clause, format!("{}/{}", m.what, m.ctx), format!("client {} step {}: expected {} got {}", m.client, m.step, clip(&m.expected), m.actual)));
+    }
+    // (g) a connection failure is noticed in the instant it happens: every call that was waiting then is released
+    // in that virtual instant (with its delivered reply or an error), and drive() returns in that instant too -
+    // not when some later reply, request or handle drop happens to wake things up.
+    {
+        // instant of the failure: a read-side cut becomes visible when everything before it has been delivered;
+        // write-side faults and hostile frames fire when first met
+        let mut t_fail: Option<u64> = None;
+        for f in &sc.faults {
+            match f {
+                Fault::EofAt { at } | Fault::ReadErrAt { at, .. } => {
+                    let total = rr.s2c.len();
+                    if *at <= total {
+                        t_fail = if *at == 0 {
+                            Some(0)
+                        } else {
+                            rr.hist.iter().find_map(|e| match &e.kind {
+                                EvKind::NetDeliver { upto } if *upto >= *at => Some(e.t_ms),
+                                _ => None,
+                            })
+                        };
+                    }
+                }
+                _ => {}
+            }
+        }
+        if t_fail.is_none() && sc.faults.len() == 1 {
+            t_fail = rr.hist.iter().find_map(|e| match &e.kind {
+                EvKind::Fault { what, .. } if what == "write_err" || what == "flush_err" || what == "write_after_close" => Some(e.t_ms),
+                _ => None,
+            });
+            // a close by the server is visible to the client when the end of the stream has been delivered
+            // (after whatever was still in transit) - or earlier, when a write fails
+            if let Some(closed_at) = rr.hist.iter().find_map(|e| match &e.kind {
+                EvKind::SrvClosed { at } => Some((*at, e.t_ms)),
+                _ => None,
+            }) {
+                let (off, t_close) = closed_at;
+                let t_eof = rr
+                    .hist
+                    .iter()
+                    .find_map(|e| match &e.kind {
+                        EvKind::NetDeliver { upto } if *upto >= off && e.t_ms >= t_close => Some(e.t_ms),
+                        _ => None,
+                    })
+                    .or_else(|| {
+                        // everything had been delivered before the close
+                        let delivered_before = rr.hist.iter().filter_map(|e| match &e.kind {
+                            EvKind::NetDeliver { upto } if e.t_ms <= t_close => Some(*upto),
+                            _ => None,
+                        }).max().unwrap_or(0);
+                        if delivered_before >= off { Some(t_close) } else { None }
+                    });
+                t_fail = match (t_fail, t_eof) {
+                    (Some(a), Some(b)) => Some(a.min(b)),
+                    (a, b) => a.or(b),
+                };
+            }
+        }
+        if t_fail.is_none() && sc.faults.is_empty() && !has_unbind {
+            if let Some(he) = hostile_end {
+                // the undecodable frames used here are complete frames: they are rejected once their last byte is there
+                t_fail = rr.hist.iter().find_map(|e| match &e.kind {
+                    EvKind::NetDeliver { upto } if *upto >= he => Some(e.t_ms),
+                    _ => None,
+                });
+            }
+        }
+        if let Some(tf) = t_fail {
+            let invs = invokes_by_step(&rr.hist);
+            let rets = returns_by_step(&rr.hist);
+            for ((c, ix), (ti, _)) in &invs {
+                if *ti <= tf {
+                    if let Some((ret, _, tr, _)) = rets.get(&(*c, *ix)) {
+                        if *tr > tf && !matches!(ret, Ret::Skipped) {
+                            let what = sc.clients.get(*c).and_then(|cs| cs.steps.get(*ix)).map(lifecycle).unwrap_or("call");
+                            v.push(Violation::new("C04", "C04.g", format!("{what}/released-late-after-the-connection-failed"), format!("client {c} step {ix} was waiting when the connection failed at t={tf}ms but returned only at t={tr}ms: {}", clip(&format!("{:?}", ret)))));
+                        }
+                    }
+                }
+            }
+            match rr.hist.iter().find_map(|e| if let EvKind::DriverExit { .. } = &e.kind { Some(e.t_ms) } else { None }) {
+                Some(tx) if tx > tf => v.push(Violation::new("C04", "C04.g", "drive-returns-late-after-the-connection-failed", format!("the connection failed at t={tf}ms; drive() returned at t={tx}ms"))),
+                _ => {}
+            }
+        }
     }
     // (e) operations invoked after the driver returned fail at once
     let exit_seq = rr.hist.iter().find_map(|e| if let EvKind::DriverExit { .. } = &e.kind { Some(e.seq) } else { None });
